@@ -4,7 +4,11 @@
 (* as JSON lines for replay on the real receiver.                          *)
 EXTENDS RecvSide, Json, CSV, IOUtils
 
-CONSTANT Family        \* "c12" | "c10" | "c09" | "c11"
+CONSTANT Family        \* "c12" | "c10" | "c09" | "c11" | "c13" | "c14" | "c01"
+
+(* end-to-end families additionally carry the source tree and the filter rules *)
+VARIABLES srcv, rulesv
+svars == <<vars, srcv, rulesv>>
 
 (* ---- node / entry helpers *)
 Reg(c, sz, mt, ns, perm) == [t |-> "reg", c |-> c, sz |-> sz, mt |-> mt, ns |-> ns, perm |-> perm, tgt |-> ""]
@@ -15,8 +19,11 @@ Ent(name, n) == [name |-> name, t |-> n.t, c |-> n.c, sz |-> n.sz, mt |-> n.mt, 
 EmptyFs == [p \in Paths |-> IF p = "." THEN Dir(493) ELSE Absent]
 With(f, p, n) == [f EXCEPT ![p] = n]
 
-O(r, l, p, t, D, c, I, n, del) == [r |-> r, l |-> l, p |-> p, t |-> t, D |-> D, c |-> c, I |-> I, n |-> n, del |-> del]
-Scn(f, ls, o, io, pr) == [fs0 |-> f, list |-> ls, opts |-> o, ioerr |-> io, prot |-> pr]
+O(r, l, p, t, D, c, I, n, del) == [r |-> r, l |-> l, p |-> p, t |-> t, dv |-> D, sp |-> D, c |-> c, I |-> I, n |-> n, del |-> del]
+Scn(f, ls, o, io, pr) == [fs0 |-> f, list |-> ls, opts |-> o, ioerr |-> io, prot |-> pr, src |-> EmptyFs, rules |-> <<>>]
+(* an end-to-end scenario: the sender lists the source tree under the rules *)
+E2E(src, dst, o, rules) == [fs0 |-> dst, list |-> SenderList(src, o, rules), opts |-> o, ioerr |-> 0, prot |-> Protected(rules), src |-> src, rules |-> rules]
+OX(r, l, p, t, dv, sp, c, I, n, del) == [r |-> r, l |-> l, p |-> p, t |-> t, dv |-> dv, sp |-> sp, c |-> c, I |-> I, n |-> n, del |-> del]
 
 (* the entries of a tree, as a (sorted) file list *)
 ListOf(tree) == LET idxs == {i \in 1..Len(Universe) : Exists(tree, Universe[i])}
@@ -106,15 +113,61 @@ C11Scn ==
       k \in {"absent", "present"}, fp \in C11Perms, dp \in {493, 365, 448, 320}, mt \in {1000, 1, 2000000000},
       l \in BOOLEAN, p \in BOOLEAN, t \in BOOLEAN }
 
+
+(* =================================================================== C13 *)
+(* Universe = <<".", "a", "b", "c", "d", "d/a", "d/b", "d/e", "d/e/a">>: the same *)
+(* names at several depths, files and directories, every sort position       *)
+C13Src == With(With(With(With(With(With(With(With(EmptyFs, "a", Reg(1, 11, 1000, 0, 420)), "b", Reg(2, 12, 1000, 0, 420)), "c", Reg(3, 13, 1000, 0, 420)),
+          "d", Dir(493)), "d/a", Reg(4, 14, 1000, 0, 420)), "d/b", Reg(5, 15, 1000, 0, 420)), "d/e", Dir(493)), "d/e/a", Reg(6, 16, 1000, 0, 420))
+C13RulePool == [inc : BOOLEAN, pat : {"a", "b", "d", "e"}]
+CONSTANT MaxRules
+C13Rules == UNION {[1..k -> C13RulePool] : k \in 0..MaxRules}
+C13Scn == { E2E(C13Src, EmptyFs, OX(TRUE, FALSE, FALSE, TRUE, FALSE, FALSE, FALSE, FALSE, FALSE, FALSE), rs) : rs \in C13Rules }
+
+(* =================================================================== C14 *)
+(* Universe = <<".", "d", "d/f", "dev", "f", "k", "l", "z">>: every entry type, so *)
+(* that each option influences the wire format; all option subsets          *)
+C14Src == With(With(With(With(With(With(EmptyFs, "d", Dir(488)), "d/f", Reg(1, 20, 1000, 0, 416)), "dev", Spc("chr", 432)),
+          "f", Reg(2, 30, 2000, 0, 384)), "k", Spc("fifo", 420)), "l", Lnk("d/f"))
+C14Dst == With(With(With(EmptyFs, "d", Dir(493)), "f", Reg(7, 30, 2000, 0, 420)), "z", Reg(8, 5, 500, 0, 420))
+C14Scn == { E2E(C14Src, C14Dst, OX(TRUE, l, p, t, dv, sp, c, I, n, del), rs) :
+              l \in BOOLEAN, p \in BOOLEAN, t \in BOOLEAN, dv \in BOOLEAN, sp \in BOOLEAN, c \in BOOLEAN, I \in BOOLEAN, n \in BOOLEAN,
+              del \in BOOLEAN, rs \in {<<>>, <<[inc |-> FALSE, pat |-> "f"]>>} }
+
+(* =================================================================== C01 *)
+(* Universe = <<".", "a", "b", "d", "d/a">>: every prior destination state of *)
+(* a file (absent, identical, different size, same size and other mtime,    *)
+(* same size and mtime but other content, directory / symlink in the way)   *)
+C01Src == With(With(With(With(EmptyFs, "a", Reg(1, 40, 1000, 0, 420)), "b", Reg(2, 0, 1000, 0, 420)), "d", Dir(493)), "d/a", Reg(3, 50, 1000, 0, 420))
+C01States(s) == {Absent, s, Reg(9, s.sz + 3, 900, 0, 420), Reg(9, s.sz, 900, 0, 420), Reg(9, s.sz, s.mt, 0, 420), Dir(493), Lnk("b")}
+C01Scn == { E2E(C01Src, dst, OX(TRUE, FALSE, FALSE, t, FALSE, FALSE, c, I, FALSE, FALSE), <<>>) :
+              dst \in { With(With(With(With(EmptyFs, "a", sa), "b", sb), "d", sd), "d/a", IF sd.t = "dir" THEN sda ELSE Absent) :
+                          sa \in C01States(C01Src["a"]), sb \in {Absent, C01Src["b"], Reg(9, 7, 900, 0, 420)},
+                          sd \in {Absent, Dir(493), Reg(9, 5, 900, 0, 420)}, sda \in C01States(C01Src["d/a"]) },
+              t \in BOOLEAN, c \in BOOLEAN, I \in BOOLEAN }
+
 Scenarios == CASE Family = "c12" -> C12Scn
+               [] Family = "c13" -> C13Scn
+               [] Family = "c14" -> C14Scn
+               [] Family = "c01" -> C01Scn
                [] Family = "c10" -> {s \in C10Scn : C10Valid(s)}
                [] Family = "c09" -> C09Scn
                [] Family = "c11" -> C11Scn
 
 ScnInit ==
   /\ \E s \in Scenarios : /\ fs0 = s.fs0 /\ list = s.list /\ opts = s.opts /\ ioerr = s.ioerr /\ prot = s.prot
+                            /\ srcv = s.src /\ rulesv = s.rules
   /\ fs = fs0 /\ gi = 0 /\ pend = <<>> /\ reqs = <<>> /\ pc = "delete"
-ScnSpec == ScnInit /\ [][Next]_vars
+SDeletePass == DeletePass /\ UNCHANGED <<srcv, rulesv>>
+SGen == Gen /\ UNCHANGED <<srcv, rulesv>>
+SRcv == Rcv /\ UNCHANGED <<srcv, rulesv>>
+SFinish == Finish /\ UNCHANGED <<srcv, rulesv>>
+SStutter == Stutter /\ UNCHANGED <<srcv, rulesv>>
+ScnNext == SDeletePass \/ SGen \/ SRcv \/ SFinish \/ SStutter
+ScnSpec == ScnInit /\ [][ScnNext]_svars
+
+(* C13: the sender lists exactly the entries no exclude rule removes *)
+FilterExact == \A p \in Paths : (p \in ListedNames(list)) = (Exists(srcv, p) /\ ~Excluded(rulesv, p) /\ opts.r)
 
 (* ---- emission: one JSON line per initial state, with the outcome the spec predicts *)
 NodesOf(tree) == LET F[k \in 0..Len(Universe)] ==
@@ -125,8 +178,8 @@ OutFile == IOEnv.VERIF_OUT
 Emit == (pc = "delete") =>
   LET ex == Expected(fs0, list, opts, ioerr, prot) IN
   CSVWrite("%1$s", <<ToJson([family |-> Family, universe |-> Universe, dst |-> NodesOf(fs0), list |-> list, opts |-> opts,
-                             ioerr |-> ioerr, prot |-> prot,
+                             ioerr |-> ioerr, prot |-> prot, src |-> NodesOf(srcv), rules |-> rulesv,
                              expfs |-> NodesOf(ex.fs), expreqs |-> ex.reqs])>>, OutFile)
-GenNext == FALSE /\ UNCHANGED vars
-GenSpec == ScnInit /\ [][GenNext]_vars
+GenNext == FALSE /\ UNCHANGED svars
+GenSpec == ScnInit /\ [][GenNext]_svars
 =============================================================================
